@@ -103,14 +103,14 @@ theorem LevelOrder.default (t : Tbl) (j : Nat) : LevelOrder t j (nodesAt t j) :=
 /-- `takeSwapOrders` yields two level orders and only consumes the schedule; every other outcome
 is the model's schedule-mismatch report -/
 theorem takeSwapOrders_spec (x y : Nat) (m : Mgr) :
-    OkOrSched (fun r m' => (∃ s, m' = { m with sched := s }) ∧ LevelOrder m.tbl x r.1 ∧
+    OkOrSched (fun r m' => (∃ s, m' = { m with sched := s } ∧ (m.sched = [] → s = [])) ∧ LevelOrder m.tbl x r.1 ∧
       LevelOrder m.tbl y r.2) (takeSwapOrders x y m) := by
   unfold takeSwapOrders
   simp only [M.bind_eq, M.get_eq]
   cases hs : m.sched with
   | nil =>
     simp only
-    exact ⟨⟨m.sched, rfl⟩, LevelOrder.default _ _, LevelOrder.default _ _⟩
+    exact ⟨⟨m.sched, rfl, fun _ => hs⟩, LevelOrder.default _ _, LevelOrder.default _ _⟩
   | cons it rest =>
     cases it with
     | sift names => exact rfl
@@ -122,7 +122,7 @@ theorem takeSwapOrders_spec (x y : Nat) (m : Mgr) :
         simp only [Bool.and_eq_true] at hp
         obtain ⟨n1, e1⟩ := isPerm_spec hp.1 (nodup_nodesAt _ _)
         obtain ⟨n2, e2⟩ := isPerm_spec hp.2 (nodup_nodesAt _ _)
-        exact ⟨⟨rest, rfl⟩, ⟨n1, fun u => (e1 u).trans (mem_nodesAt _ _ _)⟩,
+        exact ⟨⟨rest, rfl, fun h => by cases h⟩, ⟨n1, fun u => (e1 u).trans (mem_nodesAt _ _ _)⟩,
           ⟨n2, fun u => (e2 u).trans (mem_nodesAt _ _ _)⟩⟩
       · rw [if_neg hp]; exact rfl
 
